@@ -148,7 +148,7 @@ func runPlan(e *childEnv) {
 	r := e.rec
 	cal := e.cal
 	rnd := e.rand("plan-cases")
-	n := e.pick(120_000, 4_000_000) / e.shards
+	n := e.pick(120_000, 16_000_000) / e.shards
 	edges := oversampledEdges(cal)
 	for i := 0; i < n; i++ {
 		pc := genPlanCase(rnd, cal, edges)
